@@ -171,9 +171,12 @@ class C18(Prop):
             'mode': st.just('create'),
             'env_attrs': st.one_of(st.none(), st.lists(envitem, max_size=4).map(','.join)),
             'env_service': st.sampled_from([None, None, 'svc-env', '']),
+            # (any valid attribute value: text, number, bool, homogeneous sequence)
             'code': st.lists(st.tuples(st.sampled_from(['a', 'b', 'service.name', 'telemetry.sdk.name',
-                                                        'telemetry.sdk.version', 'telemetry.sdk.language']),
-                                       st.sampled_from(['code1', '', 'code2', None, ['mixed', 1], 'code3'])), max_size=3),
+                                                        'telemetry.sdk.version', 'telemetry.sdk.language',
+                                                        'process.executable.name']),
+                                       st.sampled_from(['code1', '', 'code2', None, ['mixed', 1], 'code3', 4711, 2.5,
+                                                        True, ('py', 'x')])), max_size=3),
             'schema': st.sampled_from([None, '', 'http://s']),
             'env_bulk': st.sampled_from([0, 0, 0, 60, 200]), 'code_bulk': st.sampled_from([0, 0, 0, 60, 200]),
         })
